@@ -322,7 +322,7 @@ Lemma bubble_chain_sim (mn : bool) (fuel : nat) : forall (s : store) pos idx e,
   pos < fuel ->
   exists s' pos' l' t,
     achain pr ple mn fuel (eview (fill s pos idx)) pos = (l', pos', t) /\
-    bubble_chain ple mn fuel s pos e.2 = Ok (pos', s') /\
+    bubble_chain ple mn fuel s pos idx e.2 = Ok (pos', s') /\
     WF (fill s' pos' idx) /\ eview (fill s' pos' idx) = l' /\
     smap s' = smap s /\ ssize s' = ssize s /\ ticks s' = ticks s + t /\
     fuse s' = fuse s /\ cap s' = cap s /\ pos' <= pos.
@@ -397,7 +397,7 @@ Proof.
   destruct (heap (fill s (S k) idx) !! pa) as [pidx|] eqn:Hpidx; [|done].
   destruct (fill_heap_lookup keq s (S k) idx pa pidx HWF ltac:(lia) Hpas Hpidx) as (Hh & Hpi & Hpne).
   unfold getu at 1. rewrite Hh. bind.
-  rewrite cmp_lt_nofuse by done. bind.
+  unfold cmp_lt_hole. rewrite cmp_lt_nofuse by done. bind.
   change (plt ple xp.2 e.2) with (alt ple xp.2 e.2).
   change (amin_level (S k)) with (on_min_level (S k)).
   set (s1 := set_ticks s (S (ticks s))).
@@ -413,12 +413,12 @@ Proof.
     (match on_min_level (S k), alt ple xp.2 e.2 with
      | true, true =>
          h ← setu (heap s1) (S k) pidx; q ← setu (qp s1) pidx (S k);
-         bubble_chain ple false (S (S k)) (set_qp (set_heap s1 h) q) pa e.2
-     | true, false => bubble_chain ple true (S (S k)) s1 (S k) e.2
-     | false, true => bubble_chain ple false (S (S k)) s1 (S k) e.2
+         bubble_chain ple false (S (S k)) (set_qp (set_heap s1 h) q) pa idx e.2
+     | true, false => bubble_chain ple true (S (S k)) s1 (S k) idx e.2
+     | false, true => bubble_chain ple false (S (S k)) s1 (S k) idx e.2
      | false, false =>
          h ← setu (heap s1) (S k) pidx; q ← setu (qp s1) pidx (S k);
-         bubble_chain ple true (S (S k)) (set_qp (set_heap s1 h) q) pa e.2
+         bubble_chain ple true (S (S k)) (set_qp (set_heap s1 h) q) pa idx e.2
      end) = Ok (pos', s') /\
     WF (fill s' pos' idx) /\ eview (fill s' pos' idx) = l' /\
     smap s' = smap s /\ ssize s' = ssize s /\ ticks s' = ticks s + t /\
@@ -434,13 +434,13 @@ Proof.
       set (s2 := hole_move s1 (S k) pa pidx) in *;
       change (eview (fill s1 (S k) idx)) with (eview (fill s (S k) idx)) in Hev2;
       rewrite <- Hev2;
-      match goal with |- context [bubble_chain ple ?mn _ _ _ _] =>
+      match goal with |- context [bubble_chain ple ?mn _ _ _ _ _] =>
         destruct (bubble_chain_sim mn (S (S k)) s2 pa idx e HWF2 Hf Hpas He ltac:(lia))
           as (s' & pos' & l' & t & Hab & Hco & HWF' & Hev' & Hm' & Hsz' & Htk' & Hfu' & Hcp' & Hle)
       end;
       rewrite Hab, Hco; exists s', pos', l', (S t); splits; try done; try lia;
       rewrite Htk'; unfold s2, s1; cbn; lia.
-    all: match goal with |- context [bubble_chain ple ?mn _ _ _ _] =>
+    all: match goal with |- context [bubble_chain ple ?mn _ _ _ _ _] =>
         destruct (bubble_chain_sim mn (S (S k)) s1 (S k) idx e HWF1 Hf Hp He ltac:(lia))
           as (s' & pos' & l' & t & Hab & Hco & HWF' & Hev' & Hm' & Hsz' & Htk' & Hfu' & Hcp' & Hle)
       end;
@@ -602,122 +602,6 @@ Proof.
   rewrite Hev1 in Hev2, Htk2.
   destruct (adheapify pr ple (aswap_remove (eview s) pos) pos) as [l' t]. cbn [fst snd] in *.
   exists e, i, s2, t. rewrite Hx, Hev2, Hm2. splits; try done; congruence.
-Qed.
-
-(** ** bubble_up does not look at [ssize]
-
-    [dpush] runs [dbubble_up] on a store whose tables already have the new
-    slot while [ssize] is incremented afterwards, so [dbubble_up_sim] applies
-    to [set_size s2 (S (ssize s2))]; these equations transport the result. *)
-
-Definition with_size {A} (n : nat) (r : R (A * store)) : R (A * store) :=
-  match r with
-  | Ok (a, s') => Ok (a, set_size s' n)
-  | Unwound s' => Unwound (set_size s' n)
-  | Fault f => Fault f
-  end.
-
-Lemma cmp_lt_set_size (s : store) a b n :
-  cmp_lt ple (set_size s n) a b = with_size n (cmp_lt ple s a b).
-Proof. unfold cmp_lt, cb. destruct s as [? ? ? ? ? [[|?]|] ?]; reflexivity. Qed.
-
-Lemma cmp_dir_set_size (mn : bool) (s : store) a b n :
-  cmp_dir ple mn (set_size s n) a b = with_size n (cmp_dir ple mn s a b).
-Proof. unfold cmp_dir. destruct mn; apply cmp_lt_set_size. Qed.
-
-Lemma prio_at_cases (s : store) p :
-  (exists x, prio_at s p = Ok x) \/ (exists f, prio_at s p = Fault f).
-Proof.
-  unfold prio_at, getu, unwrap. destruct (heap s !! p) as [i|]; bind; [|by right; eexists].
-  destruct (smap s !! i); bind; [left|right]; by eexists.
-Qed.
-
-Lemma setu_cases {A} (l : list A) i a :
-  @setu store A l i a = Ok (<[i:=a]> l) \/ @setu store A l i a = Fault UB.
-Proof. unfold setu. destruct (decide (i < length l)); auto. Qed.
-
-Lemma bubble_chain_set_size (mn : bool) (fuel : nat) : forall (s : store) pos p n,
-  bubble_chain ple mn fuel (set_size s n) pos p = with_size n (bubble_chain ple mn fuel s pos p).
-Proof.
-  induction fuel as [|fuel IH]; intros s pos p n; [done|].
-  cbn [bubble_chain]. destruct pos as [|k]; [done|].
-  cbn [parent mbind res_bind rbind]. destruct (k / 2) as [|j]; [done|].
-  cbn [parent mbind res_bind rbind].
-  change (prio_at (set_size s n) (j / 2)) with (prio_at s (j / 2)).
-  destruct (prio_at_cases s (j / 2)) as [[gpp ->]|[f ->]]; bind; [|done].
-  rewrite cmp_dir_set_size.
-  destruct (cmp_dir ple mn s p gpp) as [[b s1]| |]; cbn [with_size]; bind; try done.
-  destruct b; [|done].
-  change (heap (set_size s1 n)) with (heap s1). change (qp (set_size s1 n)) with (qp s1).
-  unfold getu, setu. destruct (heap s1 !! (j / 2)) as [gidx|]; bind; [|done].
-  destruct (decide (S k < length (heap s1))); bind; [|done].
-  destruct (decide (gidx < length (qp s1))); bind; [|done].
-  apply (IH (set_qp (set_heap s1 (<[S k:=gidx]> (heap s1))) (<[gidx:=S k]> (qp s1)))).
-Qed.
-
-Lemma dbubble_up_set_size (s : store) pos idx n :
-  dbubble_up ple (set_size s n) pos idx = with_size n (dbubble_up ple s pos idx).
-Proof.
-  unfold dbubble_up. change (smap (set_size s n)) with (smap s).
-  destruct (smap s !! idx) as [e|]; cbn [unwrap mbind res_bind rbind]; [|done].
-  assert (Htail : forall (r : R (nat * store)),
-    rbind (fun '(pos', s') =>
-             h ← setu (heap s') pos' idx; q ← setu (qp s') idx pos';
-             Ok (pos', set_qp (set_heap s' h) q)) (with_size n r) =
-    with_size n (rbind (fun '(pos', s') =>
-             h ← setu (heap s') pos' idx; q ← setu (qp s') idx pos';
-             Ok (pos', set_qp (set_heap s' h) q)) r)).
-  { intros [[pos' s']| |]; cbn [with_size rbind]; try done.
-    change (heap (set_size s' n)) with (heap s'). change (qp (set_size s' n)) with (qp s').
-    unfold setu. destruct (decide (pos' < length (heap s'))); bind; [|done].
-    destruct (decide (idx < length (qp s'))); bind; done. }
-  destruct pos as [|k].
-  { apply (Htail (Ok (0, s))). }
-  cbn [parent]. bind.
-  change (prio_at (set_size s n) (k / 2)) with (prio_at s (k / 2)).
-  change (heap (set_size s n)) with (heap s).
-  destruct (prio_at_cases s (k / 2)) as [[pp ->]|[f ->]]; bind; [|done].
-  unfold getu. destruct (heap s !! (k / 2)) as [pidx|]; bind; [|done].
-  rewrite cmp_lt_set_size.
-  destruct (cmp_lt ple s pp e.2) as [[b s1]| |]; cbn [with_size]; bind; try done.
-  change (heap (set_size s1 n)) with (heap s1). change (qp (set_size s1 n)) with (qp s1).
-  destruct (on_min_level (S k)), b.
-  1,4: (destruct (setu_cases (heap s1) (S k) pidx) as [-> | ->]; bind; [|done]);
-    (destruct (setu_cases (qp s1) pidx (S k)) as [-> | ->]; bind; [|done]);
-    match goal with |- context [set_qp (set_heap (set_size ?ss ?nn) ?h) ?q] =>
-      change (set_qp (set_heap (set_size ss nn) h) q) with (set_size (set_qp (set_heap ss h) q) nn)
-    end.
-  all: rewrite bubble_chain_set_size; apply Htail.
-Qed.
-
-Lemma dbubble_up_set_size_ok (s : store) pos idx n pos' s' :
-  dbubble_up ple s pos idx = Ok (pos', s') ->
-  dbubble_up ple (set_size s n) pos idx = Ok (pos', set_size s' n).
-Proof. intros H. rewrite dbubble_up_set_size, H. reflexivity. Qed.
-
-(** the form [dpush] needs: the tables of [s] already hold [S (ssize s)]
-    slots; the caller bumps [ssize] afterwards *)
-Lemma dbubble_up_presize_sim (s : store) pos idx :
-  WF (fill (set_size s (S (ssize s))) pos idx) -> fuse s = None ->
-  pos <= ssize s -> idx <= ssize s ->
-  exists s' pos' l' t,
-    adbubble_up pr ple (eview (fill (set_size s (S (ssize s))) pos idx)) pos = (l', pos', t) /\
-    dbubble_up ple s pos idx = Ok (pos', s') /\
-    WF (set_size s' (S (ssize s'))) /\ eview (set_size s' (S (ssize s'))) = l' /\
-    smap s' = smap s /\ ssize s' = ssize s /\ ticks s' = ticks s + t /\
-    fuse s' = fuse s /\ cap s' = cap s /\ pos' <= pos.
-Proof.
-  intros HWF Hf Hp Hi.
-  destruct (dbubble_up_sim (set_size s (S (ssize s))) pos idx HWF Hf)
-    as (sF & pos' & l' & t & Hab & Hco & HWF' & Hev' & Hm' & Hsz' & Htk' & Hfu' & Hcp' & Hle);
-    [cbn; lia..|].
-  apply (dbubble_up_set_size_ok _ _ _ (ssize s)) in Hco.
-  replace (set_size (set_size s (S (ssize s))) (ssize s)) with s in Hco
-    by (destruct s; reflexivity).
-  exists (set_size sF (ssize s)), pos', l', t.
-  assert (HsF : set_size (set_size sF (ssize s)) (S (ssize (set_size sF (ssize s)))) = sF).
-  { destruct sF, s; cbn in *; subst; reflexivity. }
-  rewrite HsF. splits; done.
 Qed.
 
 End SimDPQ.
